@@ -121,6 +121,13 @@ func runC08(c *core.Ctx) {
 		c.Unk("C08.maprange", "reach-floor", token.NoPos, fmt.Sprintf("only %d functions reachable from the ABCI entry points (floor 1000): call graph is broken", len(fns)))
 	}
 
+	// ---- tie: sort comparators
+	nt := 0
+	for _, fn := range fns {
+		nt += checkSortComparators(c, "C08.tie", fn)
+	}
+	c.Floor("C08.tie", nt, 20, "sort calls in consensus-reachable code")
+
 	// ---- source
 	ns := 0
 	for _, fn := range fns {
